@@ -5,6 +5,17 @@ from gen import enc_value, enc_struct
 
 TEMPLATES = [
     # (script, expected value, expected vars subset {name: value} or None, class)
+    # a function called from INSIDE a loop assigns to names that are the caller's loop variables / locals: those assignments are global
+    ("function clobber() { v = 99; i = 77; return 0; } t = 0; foreach i, v in [1, 2, 3] { clobber(); t = t + v + i; } return [t, v, i];", [9, 99, 77], {"v": 99, "i": 77}, "ok"),
+    ("function set(n) { item = n; left = left - 1; return left; } left = 2; r = []; foreach item in [10, 20] { x = set(5); y = item; } return [x, y, item, left];", [0, 20, 5, 0], {"item": 5, "left": 0}, "ok"),
+    ("function inner() { q = 1; return q; } function outer() { local q; q = 7; foreach k in [1] { z = inner(); } return q; } return [outer(), q];", [7, 1], {"q": 1}, "ok"),
+    ("function bump() { c++; return c; } c = 0; foreach c2 in [1, 2] { foreach c in [10] { bump(); } } return c;", 2, {"c": 2}, "ok"),
+    ("function w() { ch = \"Z\"; return ch; } s = \"\"; foreach ch in \"ab\" { w(); s = s + ch; } return [s, ch];", ["ab", "Z"], None, "ok"),
+    # parameters, locals and loop variables written with the legacy `$` prefix are the same variables
+    ("function f($a) { $a = $a + 5; return a; } a = 10; r = f(2); return [r, a, $a];", [7, 10, 10], {"a": 10}, "ok"),
+    ("function inc($n) { return $n + 1; } function fact($k) { if ($k <= 1) { return 1; } return k * fact(k - 1); } return [inc(2), fact(4)];", [3, 24], None, "ok"),
+    ("function g($p, q) { local $l; $l = p + $q; return [l, $p, q]; } return g(1, 2);", [3, 1, 2], None, "ok"),
+    ("t = 0; foreach $i, $v in [5, 6] { t = t + i + v; } return t;", 12, None, "ok"),
     ("function fact(n) { if (n <= 1) { return 1; } return fact(n - 1) * n; } return fact(5);", 120, None, "ok"),
     ("function fib(n) { if (n < 2) { return n; } return fib(n - 1) + fib(n - 2); } return fib(10);", 55, None, "ok"),
     ("function f(a) { a = a + 1; return a; } a = 10; r = f(a); return [a, r];", [10, 11], {"a": 10, "r": 11}, "ok"),
